@@ -26,6 +26,8 @@ TRUSTED = [
 ASSUMPTIONS = [
     "bulk requests of the metrics store only contain index actions (per-item errors are keyed 'index')",
     "the per-item 'error' of a bulk response is absent or a JSON object (Elasticsearch >= 2), never a bare string",
+    "store histories: a bulk request is acknowledged or rejected as a whole (a request of which only some items fail is re-sent entirely by guarded(), "
+    "so the items that had succeeded are indexed twice - observed on the clean tree, reported, outside the generated domain)",
     "API errors are elasticsearch.ApiError instances (status_code available), as raised by elasticsearch-py 8",
 ]
 
@@ -726,6 +728,247 @@ def run_method(ctx, case):
 
 
 # ---------------------------------------------------------------------------------------------
+# stream 4: histories on one EsMetricsStore object (state carried between calls: the document buffer)
+# ---------------------------------------------------------------------------------------------
+def rally_cause(exc):
+    """a raised Rally error -> the model's wire form [class, cause, detail?]"""
+    msg = str(exc.message) if hasattr(exc, "message") else str(exc)
+    cls = type(exc).__name__
+    for name, _c, frag in CAUSES:
+        if msg.startswith(frag):
+            res = [cls, name]
+            if name == "bulkUnretryable":
+                m = re.match(r".*\[type_(\d+)\]$", msg)
+                res.append(int(m.group(1)) if m else None)
+            if name == "apiError":
+                m = re.search(r"err_(\d+)_\d+", msg)
+                res.append(int(m.group(1)) if m else None)
+            return res
+    return [cls, "unknown-message", msg[:120]]
+
+
+class _Clock:
+    NOW = 1453362707
+
+    @staticmethod
+    def now():
+        return _Clock.NOW
+
+    @staticmethod
+    def stop_watch():
+        class _SW:
+            def start(self):
+                pass
+
+            def stop(self):
+                pass
+
+            def split_time(self):
+                return 0
+
+            def total_time(self):
+                return 0
+
+        return _SW()
+
+
+class _Templates:
+    def __init__(self, cfg):
+        pass
+
+    def metrics_template(self):
+        import json
+
+        return json.dumps({"index_patterns": ["rally-metrics-*"], "template": {"settings": {}, "mappings": {}}})
+
+
+FATAL_FOR_STORE = [["authn", 0], ["authz", 1], ["api", 404, 2], ["api", 400, 4], ["api", 500, 5], ["transportOther", 3], ["bulk", [[409, "index"]]], ["bulk", [[429, "index"], [400, "index:typeonly"]]]]
+TRANSIENT_FOR_STORE = [["connTimeout", 1], ["connError", 2], ["api", 503, 3], ["api", 429, 4], ["bulk", [[429, "index"]]], ["bulk", [[503, "index"], [502, "index:emptyerror"]]]]
+
+
+def gen_fault_script(rng, for_bulk):
+    r = rng.random()
+    pool_t = TRANSIENT_FOR_STORE if for_bulk else [o for o in TRANSIENT_FOR_STORE if o[0] != "bulk"]
+    pool_f = FATAL_FOR_STORE if for_bulk else [o for o in FATAL_FOR_STORE if o[0] != "bulk"]
+    if r < 0.45:
+        return []
+    if r < 0.7:
+        return [vary(rng.choice(pool_t), rng.randrange(NV)) for _ in range(rng.choice([1, 2, 3]))]
+    if r < 0.93:
+        return [vary(rng.choice(pool_t), rng.randrange(NV)) for _ in range(rng.choice([0, 0, 1, 2]))] + [vary(rng.choice(pool_f), rng.randrange(NV))]
+    return [vary(rng.choice(pool_t), rng.randrange(NV)) for _ in range(rng.choice([10, 11, 12]))]
+
+
+def gen_store_histories(ctx):
+    """histories put* / flush(refresh) / close on one EsMetricsStore with separate scripted fault sequences for the bulk request and
+    for the refresh of every flush: a complete small family (every fatal / transient / clean class for bulk x refresh x refresh flag,
+    followed by more documents and a close) and random histories"""
+    rng = ctx.rng
+    classes_b = [[]] + [[o] for o in FATAL_FOR_STORE] + [[o] for o in TRANSIENT_FOR_STORE] + [[TRANSIENT_FOR_STORE[j % len(TRANSIENT_FOR_STORE)] for j in range(11)]]
+    classes_r = [[]] + [[o] for o in FATAL_FOR_STORE if o[0] != "bulk"] + [[o] for o in TRANSIENT_FOR_STORE if o[0] != "bulk"] + [[["connTimeout", 0]] * 11]
+    i = 0
+    for b in classes_b:
+        for r in classes_r:
+            for refresh in (True, False):
+                for tail in (0, 1, 2):
+                    i += 1
+                    if i % ctx.nshards != ctx.shard:
+                        continue
+                    steps = [{"k": "put", "n": 2}, {"k": "flush", "refresh": refresh, "bulk": [vary(o, i + j) for j, o in enumerate(b)], "refr": [vary(o, i * 3 + j) for j, o in enumerate(r)]}]
+                    if tail == 0:
+                        steps += [{"k": "put", "n": 1}, {"k": "close", "bulk": [], "refr": []}]
+                    elif tail == 1:
+                        steps += [{"k": "flush", "refresh": True, "bulk": [], "refr": []}, {"k": "put", "n": 1}, {"k": "flush", "refresh": False, "bulk": [], "refr": []}]
+                    else:
+                        steps += [{"k": "close", "bulk": [vary(TRANSIENT_FOR_STORE[i % 4], i)], "refr": []}]
+                    yield {"steps": steps, "rnd": [RND_POOL[(i + j) % len(RND_POOL)] for j in range(60)]}
+    for _ in range(ctx.budget):
+        steps = []
+        for _j in range(rng.choice([2, 3, 4, 5, 7])):
+            if rng.random() < 0.45:
+                steps.append({"k": "put", "n": rng.choice([0, 1, 1, 2, 3])})
+            else:
+                steps.append({"k": "flush", "refresh": rng.random() < 0.6, "bulk": gen_fault_script(rng, True), "refr": gen_fault_script(rng, False)})
+        if rng.random() < 0.7:
+            steps.append({"k": "close", "bulk": gen_fault_script(rng, True), "refr": gen_fault_script(rng, False)})
+        yield {"steps": steps, "rnd": gen_rnds(rng, 80)}
+
+
+def run_store_history(ctx, case):
+    import datetime
+    import json
+    import elastic_transport
+    from esrally import config, exceptions, metrics
+
+    steps, rnds = case["steps"], case["rnd"]
+    cur = {"bulk": [], "refr": [], "bi": 0, "ri": 0, "eff_bulk": [], "events": []}
+    acked = []
+
+    def play(path, args, kwargs):
+        if path == "bulk":
+            cur["events"].append(("c", "bulk"))
+            ops = kwargs["operations"]
+            docs = [json.loads(x) for x in ops[1::2]]
+            i = cur["bi"]
+            cur["bi"] += 1
+            o = cur["bulk"][i] if i < len(cur["bulk"]) else ["success"]
+            if o[0] == "success":
+                cur["eff_bulk"].append(["success"])
+                acked.extend(d.get("value") for d in docs)
+                return elastic_transport.ObjectApiResponse(body={"took": 1, "errors": False, "items": [{"index": {"_id": str(j), "status": 201}} for j in range(len(docs))]}, meta=_meta(200))
+            if o[0] == "bulk":
+                # every document of the request is rejected (per-item statuses repeated over the documents)
+                items = [list(o[1][j % len(o[1])]) for j in range(len(docs))]
+                cur["eff_bulk"].append(["bulk", items])
+                return elastic_transport.ObjectApiResponse(body={"took": 1, "errors": True, "items": bulk_items(items)}, meta=_meta(200))
+            cur["eff_bulk"].append(o)
+            raise make_exception(o, i)
+        if path == "indices.refresh":
+            cur["events"].append(("c", "refresh"))
+            i = cur["ri"]
+            cur["ri"] += 1
+            o = cur["refr"][i] if i < len(cur["refr"]) else ["success"]
+            if o[0] == "success":
+                return elastic_transport.ObjectApiResponse(body={}, meta=_meta(200))
+            raise make_exception(o, i)
+        if path in ("indices.exists", "indices.exists_index_template"):
+            return False
+        return elastic_transport.ObjectApiResponse(body={}, meta=_meta(200))
+
+    class Factory:
+        def __init__(self, cfg):
+            pass
+
+        def create(self):
+            return metrics.EsClient(StubClient(play))
+
+    cfg = config.Config()
+    cfg.add(config.Scope.application, "system", "env.name", "verif")
+    cfg.add(config.Scope.application, "track", "params", {})
+    store = metrics.EsMetricsStore(cfg, client_factory_class=Factory, index_template_provider_class=_Templates, clock=_Clock)
+    store.open("race-1", datetime.datetime(2016, 1, 31), "track", "challenge", "car", create=True)
+
+    serial = 0
+    observed = []
+    model_steps = []
+    trace = []
+
+    class Both(list):
+        """client calls go into the same trace as the recorded sleeps"""
+
+        def append(self, x):
+            trace.append("c:" + x[1])
+            list.append(self, x)
+
+    with Patched(trace, rnds):
+        for st in steps:
+            if st["k"] == "put":
+                for _ in range(st["n"]):
+                    store.put_value_cluster_level("m", serial, "ms")
+                    serial += 1
+                observed.append({"err": None, "runs": []})
+                model_steps.append({"k": "put", "n": st["n"]})
+                continue
+            cur.update(bulk=st["bulk"], refr=[o for o in st["refr"] if o[0] != "bulk"], bi=0, ri=0, eff_bulk=[], events=Both())
+            del trace[:]
+            err = None
+            try:
+                if st["k"] == "close":
+                    store.close()
+                    refresh = True
+                else:
+                    store.flush(refresh=st["refresh"])
+                    refresh = st["refresh"]
+            except exceptions.RallyError as e:
+                err = rally_cause(e)
+                refresh = True if st["k"] == "close" else st["refresh"]
+            except Exception as e:  # pylint: disable=broad-except
+                err = ["foreign", type(e).__name__, str(e)[:100]]
+                refresh = True if st["k"] == "close" else st["refresh"]
+            # split the trace into the guarded calls (bulk run, refresh run)
+            runs = []
+            for ev in trace:
+                if ev.startswith("c:"):
+                    if not runs or runs[-1][0] != ev:
+                        runs.append([ev, []])
+                    runs[-1][1].append("c")
+                else:
+                    runs[-1][1].append(ev)
+            observed.append({"err": err, "runs": [r[1] for r in runs]})
+            model_steps.append({"k": "flush", "refresh": refresh, "bulk": model_outs(cur["eff_bulk"] if len(cur["eff_bulk"]) >= len(st["bulk"]) else cur["eff_bulk"] + st["bulk"][len(cur["eff_bulk"]):]),
+                                "refr": model_outs(cur["refr"])})
+    m = ctx.model("guarded", "store", {"steps": model_steps, "rnd": [f"{x}/9007199254740992" for x in rnds]})
+    mr = m["r"]
+    mobs = [{"err": r["err"], "runs": r["runs"]} for r in mr["results"]]
+
+    def same_err(a, b):
+        if a is None or b is None:
+            return a is b
+        if a[:2] == ["RallyError", "bulkUnretryable"] and b[:2] == a[:2] and (a[2] is None or b[2] is None):
+            return True
+        return a == b
+
+    if len(mobs) != len(observed) or any(not same_err(x["err"], y["err"]) or x["runs"] != y["runs"] for x, y in zip(mobs, observed)) or mr["acked"] != acked:
+        ctx.diff("EsMetricsStore history", {"results": mobs, "acked": mr["acked"]}, {"results": observed, "acked": acked})
+    # direct oracle: every document is acknowledged by the cluster at most once and, once a flush / close went through, exactly once
+    dup = sorted({d for d in acked if acked.count(d) > 1})
+    if dup:
+        ctx.fail("document-acknowledged-twice", "documents the cluster had already acknowledged were sent (and acknowledged) again by a later flush()/close()",
+                 "each of the documents at most once", {"acknowledged": acked, "twice": dup, "step results": [o["err"] for o in observed]})
+    raised = [o["err"] for o in observed if o["err"]]
+    if steps and steps[-1]["k"] in ("flush", "close") and not raised and sorted(acked) != list(range(serial)):
+        ctx.fail("document-not-acknowledged", "no call raised and the history ends with a flush, yet not every document was acknowledged exactly once",
+                 list(range(serial)), acked)
+    if any(e and e[0] == "foreign" for e in raised):
+        ctx.fail("non-rally-exception-escapes", "a non-Rally exception escapes flush()/close()", None, [e for e in raised if e[0] == "foreign"])
+    ctx.count("steps", len(steps))
+    ctx.count("flushes-raised", len(raised))
+    ctx.count("documents", serial)
+    ctx.sig([[("put" if s["k"] == "put" else s["k"] + ("+r" if s.get("refresh", True) else "")) for s in steps], [bool(o["err"]) for o in observed], len(acked) == serial],
+            nontrivial=serial > 0)
+
+
+# ---------------------------------------------------------------------------------------------
 # translator: constants and the method table of EsClient (AST)
 # ---------------------------------------------------------------------------------------------
 def _is_self_attr(node, attr):
@@ -881,4 +1124,5 @@ STREAMS = [
     Stream("guarded_all_short", gen_exhaustive, run_guarded, quick=16500, thorough=1, shards=16, exhaustive_thorough=True),
     Stream("store_methods", gen_methods, run_method, quick=6000, thorough=120000, shards=12),
     Stream("method_table", gen_table, run_table, quick=1, thorough=1, shards=1),
+    Stream("store_histories", gen_store_histories, run_store_history, quick=4000, thorough=80000, shards=16),
 ]
